@@ -3354,6 +3354,11 @@ class FParser2IR(GenericVisitor):
         lhs = self.visit(o.items[0], **kwargs)
         rhs = self.visit(o.items[2], **kwargs)
 
+        if ptr and o.items[1] is not None:
+            # Bounds specification or bounds remapping of the pointer object,
+            # e.g., ``p(0:) => a`` or ``q(1:2, 1:5) => a``
+            lhs = lhs.clone(dimensions=as_tuple(self.visit(o.items[1], **kwargs)))
+
         # Special-case: Identify statement functions using our internal symbol table
         symbol_attrs = kwargs['scope'].symbol_attrs
         if isinstance(lhs, sym.Array) and symbol_attrs.lookup(lhs.name) is not None:
@@ -3390,6 +3395,26 @@ class FParser2IR(GenericVisitor):
         )
 
     visit_Pointer_Assignment_Stmt = visit_Assignment_Stmt
+
+    visit_Bounds_Spec_List = visit_List
+    visit_Bounds_Remapping_List = visit_List
+
+    def visit_Bounds_Spec(self, o, **kwargs):
+        """
+        The lower bound given for a dimension of the pointer object in a pointer assignment
+
+        :class:`fparser.two.Fortran2003.Bounds_Spec` has two children: the lower bound and `None`
+        """
+        return sym.RangeIndex((self.visit(o.items[0], **kwargs), None))
+
+    def visit_Bounds_Remapping(self, o, **kwargs):
+        """
+        The bounds given for a dimension of the pointer object in a pointer assignment with
+        bounds remapping
+
+        :class:`fparser.two.Fortran2003.Bounds_Remapping` has two children: lower and upper bound
+        """
+        return sym.RangeIndex((self.visit(o.items[0], **kwargs), self.visit(o.items[1], **kwargs)))
 
     def create_operation(self, op, exprs):
         """
